@@ -5,6 +5,7 @@ import (
 	"go/ast"
 	"go/token"
 	"go/types"
+	"golang.org/x/tools/go/packages"
 	"strings"
 
 	"golang.org/x/tools/go/cfg"
@@ -17,7 +18,7 @@ func checkC04(c *Check) {
 	c.Expl = "Structural mechanisms behind 'statically ill-formed programs are never accepted': every parsed statement passes the resolver and the type checker (R4.1); the loop-depth counter, scope stack and current-function marker are balanced on every path (R4.2); for every static fault class of the property the diagnostic exists in its function and is control-dependent on the guarding predicate (R4.3); the type checker's admissibility tables - operators, casts and every value context (initialiser, assignment, argument, Referenz argument, return, condition, loop header, list literal, indexing) - evaluated cell-wise over the type classes (engine E2) admit nothing that the reference table of DDP's static rules rejects (R4.4); sibling rules agree (R4.5). Not decided: that the predicates are right for every program beyond the class representatives; name resolution for every scope shape."
 	checkC04SpeculativeErrors(c)
 	checkRedeclarationAlwaysReported(c)
-	checkSilentEvaluation(c, c.Rule("R4.8", "a trial type check (EvaluateSilent) leaves the shared diagnostic state as it found it", 3))
+	checkSilentEvaluation(c, c.Rule("R4.8", "a trial type check (EvaluateSilent) leaves the shared diagnostic state as it found it", 1))
 	// R4.4 / R4.5 on the cell tables
 	lines, t, ctx, _ := computeAllCheckerLines(L, c.Tier)
 	r4 := c.Rule("R4.4", "the type checker admits no (operator | context, type classes) combination that the reference table rejects", 1000)
@@ -697,6 +698,101 @@ func checkC04SpeculativeErrors(c *Check) {
 // must be saved BY VALUE before the evaluation and written back afterwards (directly or in a defer). Otherwise a failed
 // trial leaves the parser in panic mode and the diagnostics of the rest of the statement are suppressed.
 func checkSilentEvaluation(c *Check, r *Rule) {
+	if silentEvaluationByEvaluation(c, r) {
+		return
+	}
+	checkSilentEvaluationSyntactic(c, r)
+}
+
+// silentEvaluationByEvaluation decides the rule by running EvaluateSilent (engine E2 with pointer cells and deferred calls)
+// against a scripted Evaluate that behaves like a failing trial: it sets the module's Faulty flag and the shared panic
+// flag, and notes which handler was installed while it ran. Afterwards the three pieces of state must be what they were
+// before - for both initial values of the flags. Whatever form the save/restore has (tuple assignment, defer, a snapshot
+// struct, helpers) is the same to it. Returns false when the evaluation loses precision (the syntactic form decides then).
+func silentEvaluationByEvaluation(c *Check, r *Rule) bool {
+	L := c.L
+	fi := L.Fn("src/parser/typechecker.(*Typechecker).EvaluateSilent")
+	if fi == nil {
+		return false
+	}
+	type obs struct{ faulty, panicMode, handler, silenced string }
+	var problems []string
+	for _, initial := range []bool{false, true} {
+		in := NewInterp(L)
+		in.Pointers, in.Defers = true, true
+		in.MaxDepth = 10
+		handler0 := newObj("the caller's error handler")
+		ptr := newObj("ptr")
+		astObj := newObj("ast.Ast")
+		mod := newObj("ast.Module")
+		mod.set("Ast", astObj)
+		tc := newObj("typechecker.Typechecker")
+		silenced := "?"
+		in.Models["typechecker.(*Typechecker).Evaluate"] = func(in *Interp, pkg *packages.Package, call *ast.CallExpr, recv Val, args []Val) (Val, bool) {
+			o, ok := recv.(*Obj)
+			if !ok {
+				return nil, false
+			}
+			if h, isObj := o.get("ErrorHandler").(*Obj); isObj && h == handler0 {
+				silenced = "no"
+			} else {
+				silenced = "yes"
+			}
+			// what the error helper does when the trial fails
+			astObj.set("Faulty", boolV(true))
+			ptr.set("*", boolV(true))
+			return newObj("ddptypes.Type"), true
+		}
+		var res obs
+		runs, _ := in.RunAll(4, func() {
+			astObj.set("Faulty", boolV(initial))
+			ptr.set("*", boolV(initial))
+			tc.set("ErrorHandler", handler0)
+			tc.set("Module", mod)
+			tc.set("panicMode", ptr)
+			silenced = "?"
+			in.CallFunc(fi, tc, []Val{newObj("ast.Expression")})
+			show := func(v Val) string {
+				if t, known := truth(v); known {
+					return fmt.Sprint(t)
+				}
+				return "?"
+			}
+			res.faulty = show(astObj.get("Faulty"))
+			if p, ok := tc.get("panicMode").(*Obj); ok && p == ptr {
+				res.panicMode = show(ptr.get("*"))
+			} else {
+				res.panicMode = "another pointer"
+			}
+			if h, ok := tc.get("ErrorHandler").(*Obj); ok && h == handler0 {
+				res.handler = "restored"
+			} else {
+				res.handler = "not restored"
+			}
+			res.silenced = silenced
+		})
+		if runs != 1 || res.faulty == "?" || res.panicMode == "?" || res.silenced == "?" {
+			return false
+		}
+		want := fmt.Sprint(initial)
+		if res.silenced != "yes" {
+			problems = append(problems, "the caller's error handler is still installed during the trial")
+		}
+		if res.faulty != want {
+			problems = append(problems, fmt.Sprintf("Module.Ast.Faulty was %v before a failing trial and is %s after it", initial, res.faulty))
+		}
+		if res.panicMode != want {
+			problems = append(problems, fmt.Sprintf("the shared panic flag was %v before a failing trial and is %s after it", initial, res.panicMode))
+		}
+		if res.handler != "restored" {
+			problems = append(problems, "the caller's error handler is not put back")
+		}
+	}
+	r.Decide(len(problems) == 0, "typechecker.(*Typechecker).EvaluateSilent|state after a failing trial", fi.Decl.Pos(), "evaluated with the flags false and true: Faulty flag, shared panic flag and handler are what they were before; the handler is silenced during the trial", strings.Join(uniq(problems), "; ")+": a failed trial leaves the parser in panic mode (or the module marked faulty), so the diagnostics of the rest of the statement are suppressed and an ill-typed program is accepted")
+	return true
+}
+
+func checkSilentEvaluationSyntactic(c *Check, r *Rule) {
 	L := c.L
 	fi := L.Fn("src/parser/typechecker.(*Typechecker).EvaluateSilent")
 	errFn := L.Fn("src/parser/typechecker.(*Typechecker).err")
